@@ -15,7 +15,7 @@ def chrom(c, style):
     return base if style == "" else "chr" + base
 
 
-def make_ga(cls, rows, meta=None, index="range", exact=False):
+def make_ga(cls, rows, meta=None, index="range", exact=False, labels=None):
     """rows: list of dicts (one representative row per class).  index="any": the caller's table may carry any index
     (filtered / subset rows), so label-aligned stores of fresh Series are hazards"""
     n = len(rows)
@@ -23,6 +23,8 @@ def make_ga(cls, rows, meta=None, index="range", exact=False):
     g = GA(cls, cols, n, meta)
     g.data.index = index
     g.data.exact = exact          # exact=True: len() is the literal number of rows (a group of exactly these rows)
+    if labels is not None:
+        g.data.labels = list(labels)  # literal index labels (need not be 0..n-1: filtered / concatenated / re-ordered tables)
     return g
 
 
